@@ -321,34 +321,60 @@ func (c *Check) lateJoiner(p *St, bad sink, tag string) {
 			if s := m.GetSeat(k); s == nil || s.Player != nil {
 				continue // a visitor is still there: not an empty seat
 			}
-			atomic.AddInt64(&c.scenarios, 1)
-			if o := Apply(m, Op{"Join", k}); o.Err != nil || o.Panic != "" {
-				continue
-			}
-			if o := Apply(m, Op{"Seat", k}); o.Err != nil || o.Panic != "" {
-				continue
-			}
-			passed := false
-			for hand := 1; hand <= n+1; hand++ {
-				prevD := seatID(m.Dealer())
-				o := Apply(m, Op{Kind: "Next"})
-				if o.Panic != "" || o.Err != nil {
+			// the newcomer joins now and sits in after `delay` further hands (0 = at once)
+			for delay := 0; delay <= n; delay++ {
+				if delay > 0 {
+					// rebuild the situation: Build + prefix again
+					m = Build(p)
+					for _, op := range prefix {
+						Apply(m, op)
+					}
+				}
+				atomic.AddInt64(&c.scenarios, 1)
+				if o := Apply(m, Op{"Join", k}); o.Err != nil || o.Panic != "" {
 					break
 				}
-				s := Snap(m, n)
-				if !passed && (between(prevD, k, s.D, n) || s.D == k) {
-					passed = true
+				satIn := false
+				if delay == 0 {
+					if o := Apply(m, Op{"Seat", k}); o.Err != nil || o.Panic != "" {
+						break
+					}
+					satIn = true
 				}
-				if s.playable(k) != passed {
-					sig := "late-joiner:dealt-in-early" + tag
-					if passed {
-						sig = "late-joiner:kept-out" + tag
+				passed := false
+				failed := false
+				for hand := 1; hand <= n+1; hand++ {
+					prevD := seatID(m.Dealer())
+					o := Apply(m, Op{Kind: "Next"})
+					if o.Panic != "" || o.Err != nil {
+						break
 					}
-					var pl []string
-					for _, op := range prefix {
-						pl = append(pl, op.Label())
+					s := Snap(m, n)
+					if !passed && (between(prevD, k, s.D, n) || s.D == k) {
+						passed = true
 					}
-					bad(sig, fmt.Sprintf("after earlier visitors %v came and went, a newcomer takes seat %d (between dealer %d and big blind %d of [%s]) and sits in: hand %d after joining, dealer %d -> %d, button has passed the seat: %v, dealt in: %v", pl, k, p.D, p.BB, p, hand, prevD, s.D, passed, s.playable(k)), fmt.Sprintf("dealt in = %v", passed), fmt.Sprintf("dealt in = %v", s.playable(k)))
+					want := passed && satIn
+					if s.playable(k) != want {
+						sig := "late-joiner:dealt-in-early" + tag
+						if want {
+							sig = "late-joiner:kept-out" + tag
+						}
+						var pl []string
+						for _, op := range prefix {
+							pl = append(pl, op.Label())
+						}
+						bad(sig, fmt.Sprintf("after earlier visitors %v came and went, a newcomer takes seat %d (between dealer %d and big blind %d of [%s]) and sits in after %d more hands: hand %d after joining, dealer %d -> %d, button has passed the seat: %v, sat in: %v, dealt in: %v", pl, k, p.D, p.BB, p, delay, hand, prevD, s.D, passed, satIn, s.playable(k)), fmt.Sprintf("dealt in = %v", want), fmt.Sprintf("dealt in = %v", s.playable(k)))
+						failed = true
+						break
+					}
+					if !satIn && hand == delay {
+						if o := Apply(m, Op{"Seat", k}); o.Err != nil || o.Panic != "" {
+							break
+						}
+						satIn = true
+					}
+				}
+				if failed {
 					return
 				}
 			}
